@@ -27,10 +27,14 @@ func (s *vStream) Read(p []byte) (int, error) {
 // VerifH_C01_RootFrameRoundTrip: root-module LdWrite/LdSize/ReadNode round trip for every CID of a
 // 6-byte alphabet and payloads of 0..3 bytes with arbitrary trailing bytes.
 func VerifH_C01_RootFrameRoundTrip() {
-	c := vCidRaw("cid", 6)
-	n := vChoose("dataLen", 4)
+	ck, nmax, tn := 6, 4, 2
+	if vTier() == 1 {
+		ck, nmax, tn = 8, 9, 4
+	}
+	c := vCidRaw("cid", ck)
+	n := vChoose("dataLen", nmax)
 	data := vBytes("data", n)
-	tail := vBytes("tail", 2)
+	tail := vBytes("tail", tn)
 	var w bytes.Buffer
 	err := LdWrite(&w, c.Bytes(), data)
 	vAssert("write-ok", err == nil)
@@ -55,6 +59,9 @@ func VerifH_C01_RootFrameRoundTrip() {
 // rejected, truncation is never a clean EOF once a byte was consumed.
 func VerifH_C09_RootLdRead() {
 	N := 12
+	if vTier() == 1 {
+		N = 16
+	}
 	in := vBytes("in", N)
 	n := vInt("n")
 	vAssume(n >= 0 && n <= N)
